@@ -69,7 +69,7 @@ def corrupt(rng, lines, kind):
         if t_ == '#endif':
             depth_ = max(0, depth_ - 1)
     code_idx = [i for i, l in enumerate(L) if l.strip() and not l.strip().startswith(';') and i not in open_]
-    instr_idx = [i for i in code_idx if re.match(r'\s*(\w+:\s*)?(nop|q4|inr|nib|ldi|q12|tri|jmp|ldx|sel|mv2|lix|liy|bra)\b', L[i], re.I)
+    instr_idx = [i for i in code_idx if re.match(r'\s*(\w+:\s*)?(nop|q4|inr|nib|ldi|q12|tri|jmp|ldx|sel|mv2|lix|liy|bra|psh|ldq|ldn)\b', L[i], re.I)
                  and not L[i].strip().startswith('.')]
     if not code_idx:
         return None
@@ -113,7 +113,7 @@ def corrupt(rng, lines, kind):
         if not instr_idx:
             return None
         i = rng.choice(instr_idx)
-        L[i] = re.sub(r'(?i)\b(nop|q4|inr|nib|ldi|q12|tri|jmp|ldx|sel|mv2|lix|liy|bra)\b', rng.choice(['xyzzy', 'ldq', 'n0p', 'jmpp']), L[i], count=1)
+        L[i] = re.sub(r'(?i)\b(nop|q4|inr|nib|ldi|q12|tri|jmp|ldx|sel|mv2|lix|liy|bra|psh|ldq|ldn)\b', rng.choice(['xyzzy', 'ldzz', 'n0p', 'jmpp']), L[i], count=1)
         return L, 'unknown-instruction', pos_tag(i)
     if kind == 'garble-after-statement':
         i = rng.choice(code_idx)
@@ -194,6 +194,21 @@ def corrupt(rng, lines, kind):
         i = rng.choice(code_idx)
         L.insert(i, ins)
         return L, None, pos_tag(i)
+    if kind == 'directive-case':
+        # directive keywords in upper / mixed case (whatever the tool makes of them, it must decide and fail closed)
+        if rng.random() < 0.5:
+            dl = [i for i in code_idx if L[i].lstrip().startswith(('.', '#'))]
+            if dl:
+                i = rng.choice(dl)
+                m_ = re.match(r'(\s*)([.#]\w+)(.*)', L[i], re.S)
+                w_ = m_.group(2)
+                L[i] = m_.group(1) + rng.choice([w_.upper(), w_.capitalize(), w_[:2].upper() + w_[2:], w_.title()]) + m_.group(3)
+                return L, None, pos_tag(i)
+        i = rng.choice(code_idx)
+        L.insert(i, rng.choice(['.ORG 4', '.BYTE 1, 2', '.ALIGN 4', '.FILL 2, 1', '.Zero 2', '.ZEROUNTIL 9', '.CSTR "x"', '.AsciiZ "y"',
+                                '.2BYTE 5', '.MEMZONE GLOBAL', '.Org 4', '.Byte 7', '#DEFINE UC_SYM 1', '#IF 1\n.byte 1\n#ENDIF', '#Mute\n#Unmute',
+                                '#IFDEF UC_X\n#ELSE\n#ENDIF', '#if 1\n.byte 1\n#ENDIF', '#INCLUDE "nothere.asm"', '#REQUIRE "x"']))
+        return L, None, pos_tag(i)
     if kind == 'only-zero-length':
         # a program whose byte-producing lines all have length zero (with labels, constants, comments around them)
         zs = [rng.choice(ZERO_LEN) for _ in range(rng.randrange(1, 5))]
@@ -214,7 +229,7 @@ def corrupt(rng, lines, kind):
 
 CORRUPTIONS = ['none', 'garble-after-statement', 'drop-token', 'dup-token', 'swap-token', 'truncate-line', 'drop-line', 'dup-line', 'swap-line',
                'garble-mnemonic', 'undefined-label', 'no-variant', 'value-overflow', 'unbalance', 'zero-length', 'junk', 'empty-file',
-               'comments-only', 'long-run', 'odd-spacing', 'only-zero-length']
+               'comments-only', 'long-run', 'odd-spacing', 'only-zero-length', 'directive-case']
 
 
 class C14(core.Check):
